@@ -255,7 +255,7 @@ def gen_faults(r, base):
     out = []
     fields = None
     for _ in range(r.choice([1, 1, 1, 2, 2, 3, 4])):
-        k = weighted(r, [("truncate", 2), ("flip", 3), ("set", 3), ("zero", 1.5), ("dup", 1), ("drop", 1), ("field", 5), ("tail", 0.7)])
+        k = weighted(r, [("truncate", 2), ("flip", 3), ("set", 3), ("zero", 1.5), ("dup", 1), ("drop", 1), ("field", 5), ("group", 2.5), ("tail", 0.7)])
         hdr = min(n, 4096)
         off = (r.randrange(hdr) if r.random() < 0.8 else r.randrange(n)) if n else 0
         if k == "truncate":
@@ -266,6 +266,21 @@ def gen_faults(r, base):
             out.append({"k": k, "off": off, "v": r.choice([0, 0xFF, 0x7F, 0x80, 1])})
         elif k in ("zero", "dup", "drop"):
             out.append({"k": k, "off": off, "n": r.choice([1, 2, 4, 8, 16, 64, 512])})
+        elif k == "group":
+            # two or three fields of the same header / table entry at once (an offset past
+            # the end of file together with a huge size or count, ...)
+            if fields is None:
+                fields = F.locate_fields(base)
+            groups = {}
+            for f in fields:
+                groups.setdefault(f[3].rsplit(".", 1)[0], []).append(f)
+            groups = [g for g in groups.values() if len(g) >= 2]
+            if not groups:
+                out.append({"k": "set", "off": off, "v": 0xFF})
+                continue
+            g = r.choice(groups)
+            for (fo, fs, fe, lab) in r.sample(g, min(len(g), r.choice([2, 2, 3]))):
+                out.append({"k": "field", "off": fo, "size": fs, "endian": fe, "v": r.choice(F.boundary_values(fs, n)), "label": lab})
         elif k == "field":
             if fields is None:
                 fields = F.locate_fields(base)
@@ -318,15 +333,22 @@ class Meter(object):
         # an allocation request refused by the address-space limit: remember where,
         # whether or not a handler swallows the MemoryError afterwards
         if isinstance(exc, MemoryError) and self.memerr is None:
+            # innermost frame inside a format module (the loop or the padding that asks
+            # for the memory), else the innermost amoco frame
             f = sys._getframe(1)
-            lab = "?"
+            lab = None
+            first = None
             while f is not None:
                 fn = f.f_code.co_filename
                 if "/amoco/" in fn:
-                    lab = "%s:%s" % (fn.split("/amoco/")[-1], f.f_code.co_qualname)
-                    break
+                    x = "%s:%s" % (fn.split("/amoco/")[-1], f.f_code.co_qualname)
+                    if first is None:
+                        first = x
+                    if any(p in fn for p, _ in FORMAT_FILES):
+                        lab = x
+                        break
                 f = f.f_back
-            self.memerr = lab
+            self.memerr = lab or first or "?"
 
     GRACE = 30000  # events after the overrun during which the stack is sampled
 
@@ -544,7 +566,11 @@ def one_case(case, st, measure_mem):
                     st.hit("probe:valid-base-identified")
         if changed and outcome == "shellcode" and case.get("base", "").startswith(("synth:hex", "synth:srec", "avr/")):
             st.hit("probe:corrupted-hex-or-srec-rejected")
-    st.hit("max-events", 0)
+    if viol is not None or outcome.startswith(("exc", "budget")):
+        # failed parses leave large cyclic garbage behind; give it back before the next case
+        import gc
+
+        gc.collect()
     return outcome, viol, events, changed, len(data)
 
 
@@ -563,9 +589,35 @@ def is_valid_base(name):
 
 
 # ---------------------------------------------------------------------------
+def gen_record_text(r):
+    """Intel-HEX / S-record text whose records carry a VALID checksum but arbitrary
+    (possibly inconsistent) count / type / length fields, so that the parser gets past
+    the checksum and into the per-record-type code"""
+    lines = []
+    for _ in range(r.choice([1, 1, 2, 3, 6])):
+        if r.random() < 0.6:
+            typ = r.choice([0, 1, 2, 3, 4, 5, 5, 6, 0x10])
+            data = bytes(r.randrange(256) for _ in range(r.choice([0, 0, 1, 2, 3, 4, 5, 16])))
+            cnt = len(data) if r.random() < 0.7 else r.choice([0, 1, 2, 4, 255])
+            addr = r.choice([0, 0x100, 0xFFFF])
+            rec = bytes([cnt & 0xFF, addr >> 8, addr & 0xFF, typ & 0xFF]) + data
+            lines.append(":" + (rec + bytes([(-sum(rec)) & 0xFF])).hex().upper())
+        else:
+            typ = r.choice([0, 1, 2, 3, 4, 5, 6, 7, 8, 9])
+            data = bytes(r.randrange(256) for _ in range(r.choice([0, 1, 2, 3, 4, 8])))
+            alen = r.choice([2, 2, 3, 4])
+            cnt = alen + len(data) + 1 if r.random() < 0.7 else r.choice([0, 1, 3, 255])
+            rec = bytes([cnt & 0xFF]) + bytes(alen) + data
+            lines.append("S%d" % typ + (rec + bytes([(~sum(rec)) & 0xFF])).hex().upper())
+    sep = r.choice(["\n", "\r\n", "\n"])
+    return (sep.join(lines) + (sep if r.random() < 0.8 else "")).encode()
+
+
 def gen_random_case(r):
     k = r.random()
-    if k < 0.12:
+    if k < 0.06:
+        case = {"op": "case", "data": gen_record_text(r).hex(), "faults": []}
+    elif k < 0.16:
         n = r.choice([0, 1, 2, 4, 16, 64, 123, 512, 4096])
         case = {"op": "case", "data": bytes(r.randrange(256) for _ in range(n)).hex(), "faults": []}
         # random data led by a magic now and then
